@@ -26,7 +26,7 @@
   alias of `any` (`!=` on interfaces: run-time panic on maps/slices).
 -/
 import Cog.Sem.GoCodec
-namespace Cog.Sem
+namespace Cog.Sem.GoEq
 open Cog.IR
 
 /-- what `type_equality_check` sees at a position, after `resolveRefs` -/
@@ -465,4 +465,4 @@ def unionsAligned : Nat → Schemas → Ty → GoVal → GoVal → Bool
     | .alias t' => unionsAligned fuel ss t' a b
     | _ => true
 
-end Cog.Sem
+end Cog.Sem.GoEq
